@@ -25,11 +25,17 @@ PROP = {
 }
 
 TEXT = {
-    "text": "No Lean theorem yet for this property (modules = []): the level reached on every run is correspondence plus a "
-            "metamorphic oracle. The scanner model (Liquid/Scan.lean: Delims.ofList defaulting, tokenRe, hyphen detection relative "
-            "to the delimiter lengths) answers both spellings of every case and is diffed against the real engine; the oracle "
-            "compares the real engine's two results with each other.",
-    "design_ref": "DESIGN.md 6 C19",
-    "note": NOTE + "The theorems scan_spell / custom_eq_default / default_is_text / hyphen_detection of DESIGN 6 C19 are not proved yet.",
-    "technique": "model/implementation correspondence + metamorphic oracle (custom spelling vs default spelling)",
+    "text": ('Theorems: Delims("","","","") selects the defaults, position by position; a list that is not four entries selects '
+              'the defaults; the delimiters used are never empty (delims_*); a trim marker is emitted exactly when the byte next '
+              "to the configured delimiter is a hyphen, relative to that delimiter's length (hyphen_detection_obj/tag); the C05 "
+              'partition and line theorems hold for every delimiter list (custom_delims_partition); a source containing none of '
+              'the configured opening delimiters is one text token, so default-delimiter tags are ordinary text under custom '
+              'delimiters (default_delims_are_text). Tie: the `delims` stream spells every generated template with custom and '
+              "default delimiters, answers both by the model and the real engine, and compares the real engine's two results with "
+              'each other.'),
+    "design_ref": 'DESIGN.md 6 C19',
+    "note": NOTE + ('The equivalence of the two spellings is established per run (metamorphic oracle + correspondence), not as a single '
+              'theorem over all token lists.'),
+    "technique": ('Lean 4 proof (tokenizer lemmas generic in the delimiter list) + model/implementation correspondence + metamorphic '
+              'oracle (custom vs default spelling)'),
 }
